@@ -8,7 +8,8 @@ code -> spec : the driver records, per connection, the script as performed and w
 import json, os, re, collections
 import vlib
 
-ENV = {"Connect", "CSend", "CFin", "CRst", "TSend", "TFin", "TRst", "TClose", "Tick", "CloseListener"}
+ENV = {"Connect", "CSend", "CFin", "CRst", "CPause", "CResume", "TSend", "TFin", "TRst", "TClose", "TPause", "TResume", "Tick",
+       "CloseListener"}
 OBS = {"Open", "MAuth", "MProbe", "MClosed", "Dial", "TRecv", "TSawFin", "CRecv", "CSawFin", "CClose", "ServeReturn"}
 KIND = {1: "pre", 2: "addr", 3: "addrplus", 4: "addrpart", 5: "addrrest", 6: "badaddr", 7: "data", 8: "bad", 9: "junk"}
 
@@ -41,7 +42,7 @@ def features(beh):
     return dict(dial=names["Dial"] > 0, trecv=names["TRecv"], crecv=names["CRecv"], tfin=names["TSawFin"], cfin=names["CSawFin"],
                 probe=names["MProbe"] > 0, bad="bad" in toks or "badaddr" in toks, junk="junk" in toks, ticks=names["Tick"],
                 hs=tuple(s["hs"] for s in beh["sc"]), tk=tuple(s["tk"] for s in beh["sc"]), ntok=len(toks),
-                rst=names["TRst"] > 0, lclose=names["CloseListener"] > 0, tclose=names["TClose"] > 0, crst=names["CRst"] > 0,
+                rst=names["TRst"] > 0, lclose=names["CloseListener"] > 0, tclose=names["TClose"] > 0, crst=names["CRst"] > 0, tpause=names["TResume"] > 0, cpause=names["CResume"] > 0,
                 after_close=sum(1 for i, e in enumerate(beh["tr"]) if e["a"] == "CSend" and e["v"] // 10 == 7 and
                                 any(x["a"] == "TClose" for x in beh["tr"][:i])))
 
